@@ -4,6 +4,7 @@
 import Nuts.Model.Tx
 import NutsProofs.Props.C04
 import NutsProofs.Facts
+import NutsProofs.Lemmas.ReopenAll
 namespace NutsProofs.C12
 open Nuts Nuts.Model Nuts.Model.DB NutsProofs NutsProofs.C04
 
@@ -182,5 +183,66 @@ theorem C12_size_test_first :
 
 theorem C12_closed_checks :
     (NutsGen.F.closedChecks.filter (fun p => !p.2)).map (·.1) = Facts.closedExceptions := Facts.closed_checks_ok
+
+/-! ### a failed Commit after a reopen
+
+In the running process a Commit that fails at its `i`-th record (`i ≥ 1`) has already written and — key/value
+records — indexed the records before it (finding D-COMMIT-PARTIAL, witness above). On disk those records carry
+no commit mark, so recovery ignores them: after a reopen the failed transaction has no effect in any structure. -/
+
+open NutsProofs.Reopen NutsProofs.ReopenAll in
+/-- the write loop that meets an oversized record after `pre`: it stops there, having written `pre` unmarked -/
+theorem commitLoop_fail_prefix (pre : List Rec) (big : Rec) (post : List Rec) (s : State)
+    (hpre : ∀ r ∈ pre, ¬ r.size > s.opt.seg) (hbig : big.size > s.opt.seg)
+    (hopt : ∀ (u : State) (r : Rec) (l : Bool), (writeRec u r l).opt = u.opt) :
+    commitLoop s (pre ++ big :: post) = (pre.foldl (fun s r => writeRec s r false) s, false) := by
+  induction pre generalizing s with
+  | nil => simp [commitLoop, hbig]
+  | cons r rest ih =>
+    have hr := hpre r (by simp)
+    have hne : (rest ++ big :: post).isEmpty = false := by cases rest <;> rfl
+    simp only [List.cons_append, commitLoop, hr, if_false, hne, List.foldl_cons]
+    exact ih (writeRec s r false) (fun q hq => by rw [hopt]; exact hpre q (by simp [hq])) (by rw [hopt]; exact hbig)
+
+theorem writeRec_opt (u : State) (r : Rec) (l : Bool) : (writeRec u r l).opt = u.opt := by
+  unfold writeRec preRotate
+  simp only []
+  split <;> split <;> split <;> rfl
+
+open NutsProofs.Reopen NutsProofs.ReopenAll in
+/-- **C12 (a failed Commit, after reopen; all structures, key+value mode, every history).** After any history
+of successfully committed transactions (any structures, reopens anywhere), a transaction with a fresh id whose
+records `pre` fit but whose next record is larger than the segment size is committed: `Commit` returns an error,
+and after closing and reopening in key+value mode the key/value index, the lists, the sets, the sorted sets and
+the committed ids are exactly those before the transaction — whatever `pre` wrote to the files. -/
+theorem C12_failed_commit_invisible_after_reopen (opt0 : Opts) (ops : List OpA) (hok : OpsOkA (openDB opt0 []).1 ops)
+    (pre : List Rec) (big : Rec) (post : List Rec) (tid : Nat)
+    (hpre : ∀ r ∈ pre, ¬ r.size > (ops.foldl stepA (openDB opt0 []).1).opt.seg)
+    (hbig : big.size > (ops.foldl stepA (openDB opt0 []).1).opt.seg)
+    (ht : ∀ r ∈ pre ++ big :: post, r.txid = tid ∧ r.status = 0)
+    (hfresh : ∀ x ∈ allRecs (ops.foldl stepA (openDB opt0 []).1).files, x.1.txid ≠ tid)
+    (opt : Opts) (hm : opt.mode = 0) :
+    let s := ops.foldl stepA (openDB opt0 []).1
+    let sf := (commit s (pre ++ big :: post)).1
+    (commit s (pre ++ big :: post)).2 = .err ∧
+    (openDB opt sf.files).2 = .ok () ∧ (openDB opt sf.files).1.kv = normKV s.kv ∧
+    (openDB opt sf.files).1.lists = s.lists ∧ (openDB opt sf.files).1.sets = s.sets ∧
+    (openDB opt sf.files).1.zsets = s.zsets ∧
+    (∀ id, id ∈ (openDB opt sf.files).1.committed ↔ id ∈ s.committed) := by
+  intro s sf
+  have hinv : AllInv s := allInv_ops ops _ (allInv_init opt0) hok
+  have hloop := commitLoop_fail_prefix pre big post s hpre hbig writeRec_opt
+  have hne : (pre ++ big :: post).isEmpty = false := by cases pre <;> rfl
+  have hcommit : commit s (pre ++ big :: post) = (pre.foldl (fun s r => writeRec s r false) s, .err) := by
+    unfold commit
+    simp only [hne, Bool.false_eq_true, if_false, hloop, Bool.not_false, if_true]
+  have hsf : sf = crashAfterA s (pre ++ big :: post) pre.length := by
+    show (commit s (pre ++ big :: post)).1 = _
+    rw [hcommit]
+    unfold crashAfterA
+    simp
+  obtain ⟨h1, h2, h3, h4⟩ := crash_in_commit_any s hinv (pre ++ big :: post) tid pre.length ht hfresh opt hm
+  rw [← hsf] at h1 h2 h3 h4
+  exact ⟨by rw [hcommit], h1, h2, congrArg SV.lists h3, congrArg SV.sets h3, congrArg SV.zsets h3, h4⟩
 
 end NutsProofs.C12
